@@ -79,8 +79,8 @@ func snapshotFn(c *Ctx, root, f *ssa.Function, ctxs []*ssa.Call, recvT string) {
 				if call, ok := e.(*ssa.Call); ok {
 					switch eng.CalleeName(&call.Call) {
 					case "(*container/list.List).Front":
-						if p.AnyFrom(call.Call.Args[0], eng.Plain, func(v ssa.Value) bool { t, _, _, ok := eng.FieldLoad(v); return ok && t == recvT }) {
-							front = true
+						if p.AnyFrom(call.Call.Args[0], eng.Deep, func(v ssa.Value) bool { t, _, _, ok := eng.FieldLoad(v); return ok && t == recvT }) {
+							front = true // the guarded list itself, or a parameter that receives it from the locking method
 						}
 					case "(*container/list.Element).Next":
 						if call.Call.Args[0] == ssa.Value(ph) {
